@@ -451,6 +451,54 @@ func runLocks(a *Analyzer, r *Results) {
 		}
 		return false
 	}
+	// L.reentrant: sync mutexes are not re-entrant: a method that holds the object's lock never calls (directly or through
+	// helpers) another method that takes it - not even a read lock, and not on an error branch only
+	for _, g := range guards {
+		for _, f := range a.P.Funcs {
+			if f.Signature.Recv() == nil || typeShort(f.Signature.Recv().Type()) != g.typ || !locksIn(f, g) {
+				continue
+			}
+			var bad string
+			seenF := map[*ssa.Function]bool{f: true}
+			var visit func(h *ssa.Function, depth int)
+			visit = func(h *ssa.Function, depth int) {
+				for _, b := range h.Blocks {
+					for _, in := range b.Instrs {
+						ci, ok := in.(ssa.CallInstruction)
+						if !ok {
+							continue
+						}
+						if _, isGo := in.(*ssa.Go); isGo {
+							continue
+						}
+						sc := ci.Common().StaticCallee()
+						if sc == nil || len(sc.Blocks) == 0 || seenF[sc] {
+							continue
+						}
+						if sc.Signature.Recv() == nil || typeShort(sc.Signature.Recv().Type()) != g.typ {
+							continue
+						}
+						// same object? the receiver must be the caller's own receiver
+						if len(ci.Common().Args) == 0 || len(h.Params) == 0 || ci.Common().Args[0] != ssa.Value(h.Params[0]) {
+							continue
+						}
+						seenF[sc] = true
+						if locksIn(sc, g) {
+							if bad == "" {
+								bad = shortName(sc) + " (called at " + a.P.InstrPos(in) + ")"
+							}
+							continue
+						}
+						if depth < 3 {
+							visit(sc, depth+1)
+						}
+					}
+				}
+			}
+			visit(f, 0)
+			r.Check("L.reentrant", props("C16", "C13", "C15", "C12"), "a method that holds the lock of State / ViewContexts / InMemoryStorage does not call another method of the same object that takes that lock (Go mutexes are not re-entrant: the call would block forever with the lock held)", g.typ+"|"+f.Name(), a.P.Pos(f.Pos()), bad == "", "calls "+bad+" while holding the lock", "L")
+		}
+	}
 	for _, g := range guards {
 		isGuarded := map[string]bool{}
 		for _, f := range g.fields {
